@@ -12,6 +12,7 @@ parts
   between-datetime all ordered pairs of a small date-time alphabet x all 1023 unit subsets.
   between-time    all ordered pairs of the time alphabet x all 63 time-unit subsets.
   between-yearmonth all ordered pairs of the year-month alphabet x {YEARS, MONTHS, YEARS|MONTHS}.
+  cross-calendar  histories inside one process: the same (y, m, d) pairs asked calendar after calendar (several orders), answers vs day numbers.
   period-algebra  product alphabet of period components: normalize / to_duration preserve the fixed-length total,
                   to_builder().build() is the identity.
 between laws: only requested units non-zero; r = start + p is a valid value between start and end (inclusive); r == end when the
@@ -1050,7 +1051,62 @@ def w_algebra(job):
     return acc
 
 
+# ================================================================================================ part: cross-calendar history
+def w_cross(job):
+    """ONE process, one history: the same (y, m, d) field pairs in every calendar in which they are valid, one after another;
+    days_between / between(DAYS | WEEKS | default) / plus_days compared with the day numbers of the calendar asked.  Catches
+    state kept between calls that forgets the calendar - invisible to workers that stay inside one calendar."""
+    tier, order, seed = job
+    acc = Acc()
+    years = [500, 1400, 1900] if tier == "quick" else [500, 501, 998, 1318, 1400, 1450, 1499, 1900, 1910, 5000]
+    fields, valid = dl.cross_fields(years)
+    per_year = len(fields) // len(years)
+    groups = [fields[i * per_year:(i + 1) * per_year] for i in range(len(years))]
+    pairs = [(g[i], g[j]) for g in groups for i in range(len(g)) for j in range(i + 1, len(g))]
+    cids = [cid for cid, _ in dl.calendars()]
+    steps = dl.history_orders(pairs, cids, seed)[order]
+    prev = None
+    shapes = set()
+    for k, ((fa, fb), cid) in enumerate(steps):
+        a, b = valid[fa].get(cid), valid[fb].get(cid)
+        if a is None or b is None:
+            continue
+        na, nb = dl.daynum(a), dl.daynum(b)
+        n = nb - na
+        acc.count(states=1)
+        shapes.add((cid, n))
+        case = {"kind": "cross", "order": order, "step": k, "calendar": cid, "start": list(fa), "end": list(fb), "previous_step": prev}
+        hint = " (history %s, step %d, previous step %s)" % (order, k, prev)
+        ops = [("days_between", lambda: Period.days_between(a, b), n), ("days_between-reversed", lambda: Period.days_between(b, a), -n),
+               ("between-DAYS", lambda: comps(Period.between(a, b, U.DAYS)), dict.fromkeys(pr.FIELDS, 0) | {"days": n}),
+               ("between-WEEKS", lambda: comps(Period.between(a, b, U.WEEKS)), dict.fromkeys(pr.FIELDS, 0) | {"weeks": pr.trunc_div(n, 7)}),
+               ("between-WEEKS+DAYS", lambda: comps(Period.between(a, b, U.WEEKS | U.DAYS)), dict.fromkeys(pr.FIELDS, 0) | {"weeks": pr.trunc_div(n, 7), "days": n - 7 * pr.trunc_div(n, 7)}),
+               ("start-plus-default-between", lambda: dl.daynum(a + Period.between(a, b)), nb),
+               ("plus_days", lambda: dl.daynum(a.plus_days(n)), nb), ("minus-operator", lambda: dl.daynum(a + (b - a)), nb)]
+        if k % 2:
+            ops.reverse()
+        for name, fn, exp in ops:
+            acc.count(transitions=1, evaluations=1)
+            try:
+                got = fn()
+            except Exception as e:  # noqa: BLE001
+                _add_exc(acc, "C09/%s/cross-calendar/%s" % (cid, name), e, case)
+                continue
+            if got != exp:
+                acc.violation("C09/%s/cross-calendar/%s" % (cid, name), "%s for %s -> %s in %s gives %r, day numbers say %r%s" % (name, fa, fb, cid, got, exp, hint), case)
+        acc.outcome("cross:%s" % ("backward-in-this-calendar" if n < 0 else "span<=31" if n <= 31 else "span>31"))
+        prev = [list(fa), list(fb), cid]
+    acc.sample({"part": "cross-calendar", "order": order, "steps": len(steps), "years": years, "pairs": len(pairs), "head": [[list(p[0]), list(p[1]), c] for p, c in steps[:4]]})
+    acc.note("classes", sorted("cross/%s/span%d" % c for c in shapes))
+    return acc
+
+
 # ================================================================================================ driver
+def _dispatch(q):
+    name, fn, job = q
+    return name, globals()[fn](job)
+
+
 def _chunks(seq, n):
     return [seq[i::n] for i in range(n) if seq[i::n]]
 
@@ -1064,22 +1120,31 @@ def run(ctx):
     rot = seed % len(cals)
     cals = cals[rot:] + cals[:rot]          # the seed rotates the visiting order only
 
+    queued = []          # (part name, worker name, job) - all parts share ONE pool so no part waits for another's stragglers
+
     def part(name, fn, jobs):
         if only and name not in only:
             return
-        classes = set()
-        extra = {}
-        for acc in pmap(fn, jobs):
-            classes |= set(acc.notes.pop("classes", []))
+        queued.extend((name, fn.__name__, jb) for jb in jobs)
+
+    def flush():
+        classes, extra, order = {}, {}, []
+        for name, acc in pmap(_dispatch, list(queued)):
+            if name not in classes:
+                classes[name] = set()
+                order.append(name)
+            classes[name] |= set(acc.notes.pop("classes", []))
             a = acc.notes.pop("alphabet", None)
             if a:
-                extra["alphabet_sizes"] = extra.get("alphabet_sizes", set()) | {a}
+                extra.setdefault(name, set()).add(a)
             ctx.merge_part(name, acc)
-        fin = Acc()
-        fin.count(nontrivial=len(classes))
-        for k, v in extra.items():
-            fin.note(name + "_" + k, sorted(v))
-        ctx.merge_part(name, fin)
+        for name in order:
+            fin = Acc()
+            fin.count(nontrivial=len(classes[name]))
+            if name in extra:
+                fin.note(name + "_alphabet_sizes", sorted(extra[name]))
+            ctx.merge_part(name, fin)
+        del queued[:]
 
     big = tier == "thorough"
     part("add-days", w_add_days, [(cid, tier, ys) for cid, cal in cals for ys in _chunks(year_alphabet(cal, tier, seed), 4 if not big else 12)])
@@ -1090,12 +1155,20 @@ def run(ctx):
     part("between-datetime", w_between_dt, [(cid, tier, k, nd) for cid, _ in cals for nd in ((7 if cid in ("ISO", "Hebrew Civil", "Badi") else 1) if not big else 8,) for k in range(nd)])
     part("between-time", w_between_time, [(tier, k, 8) for k in range(8)])
     part("period-algebra", w_algebra, [(tier, k, 8) for k in range(8)])
+    queued.sort(key=lambda q: 0 if q[0] in ("between-date", "between-datetime") else 1)      # long jobs first (stable)
+    flush()
+    # the histories run in a pool of their own: each job is one process, one history
+    part("cross-calendar", w_cross, [(tier, o, seed) for o in ("pair-major-forward", "pair-major-reverse", "calendar-major", "interleaved")])
+    flush()
+    dl.report_disagreements(ctx, "C09")
     ctx.note("calendars", len(cals))
     ctx.rule = ("explicit alphabets, every combination executed on the real code. add-days: every day of the alphabet years x amounts; non-trivial = distinct "
                 "(calendar, op, fast/slow path, landing class) with landing in same-month/same-year/prev|next|far-year(+first/last day). add-months: non-trivial = "
                 "distinct (calendar, op, direction, target month, same/other year, day class) resp. (direction, leap->leap class, month, day class). between-*: all ordered "
                 "pairs of the alphabet x all unit subsets; non-trivial = distinct (calendar, unit subset, direction, span, edge flags) classes. period-algebra: "
-                "non-trivial = distinct sign patterns of the ten components.")
+                "non-trivial = distinct sign patterns of the ten components. cross-calendar: four histories, each in ONE process, asking days_between / "
+                "between(DAYS, WEEKS, WEEKS+DAYS, default) / plus_days for the same (y, m, d) field pairs in every calendar where they are valid, in different calendar "
+                "orders; non-trivial = distinct (calendar, span).")
     ctx.assumptions = ["the day-number <-> date bijection of each calendar (C01/C02) is the axis of the oracle",
                        "month order inside a year is read off the day numbers of the month starts; months-in-year and days-in-month come from the calendar's public tables",
                        "Hebrew year moves follow the Adar / 30th-day rule documented in _HebrewYearMonthDayCalculator._set_year",
@@ -1134,6 +1207,8 @@ def replay(rec):
         acc = w_between_dt((case["calendar"], rec.get("tier", "quick"), 0, 1))
     elif kind == "between-time":
         acc = w_between_time((rec.get("tier", "quick"), 0, 1))
+    elif kind == "cross":
+        acc = w_cross((rec.get("tier", "quick"), case["order"], rec.get("seed", 0)))
     elif kind == "algebra":
         _algebra(acc, PeriodBuilder(**case["period"]).build(), "alphabet")
         return bool(acc.violations)
